@@ -9,7 +9,8 @@ package main
 //   - gorillamux: the router is created with UseEncodedPath, newSrv's trim of one trailing slash of the base path,
 //     the statements that write the loop's `servers` variable (`servers := servers` per iteration, then the path item's own),
 //     NewRouter stores one fresh &routers.Route per (path, server) with Server: s.server, FindRoute returns a copy;
-//   - legacy: NewRouter's route literal has no Server field, FindRoute stores the matched server into the copy it returns,
+//   - legacy: NewRouter's route literal has no Server field, FindRoute stores the matched server into the copy it returns
+//     (the whole `if server != nil { r := *route; r.Server = server; route = &r }` branch is a row),
 //     the server is taken from doc.Servers only (F-C09-9);
 //   - which representation of the URL path is matched: gorillamux the escaped one (UseEncodedPath), legacy url.Path without
 //     servers and url.String() (Servers.MatchURL) with servers;
@@ -301,6 +302,19 @@ func extractRouterFacts(repo string) (string, error) {
 			return true
 		})
 		fact("legacy.findRoute.setsRouteServer", setsServer)
+		// the value whose Server is written is a copy of the stored route, made inside the `server != nil` branch, and that
+		// copy is what `route` points to afterwards (KinModel/RouterHist.lean `stepCopy`)
+		cpBranch := ""
+		ast.Inspect(fd.Body, func(n ast.Node) bool {
+			if is, ok := n.(*ast.IfStmt); ok && is.Init == nil && is.Else == nil {
+				body := src(is.Body)
+				if strings.Contains(body, ".Server = ") {
+					cpBranch = "if " + src(is.Cond) + " " + body
+				}
+			}
+			return true
+		})
+		fact("legacy.findRoute.copyBranch", cpBranch)
 		fact("legacy.findRoute.serversFrom", serversFrom)
 		// which representation of the path is matched: url.Path without servers, what Servers.MatchURL returns with servers
 		var rem []string
